@@ -215,18 +215,25 @@ theorem pathSlots_some {w : World} : ∀ {refs : List Id} {slots : List Nat}, pa
         | some r => exact ih (slots := r) hr t ht
 
 theorem locOf_some {w : World} {t : Id} {k : Nat} (h : locOf w t = some k) :
-    ∃ g, find w t = some g ∧ g.geo = .point (some k) := by
+    t.1 = 9 ∨ ∃ g, find w t = some g ∧ g.geo = .point (some k) := by
   rw [locOf_eq] at h
-  cases hf : find w t with
-  | none => simp [hf] at h
-  | some g =>
-    simp only [hf, Option.bind_some, pointLoc] at h
-    refine ⟨g, rfl, ?_⟩
-    cases hg : g.geo with
-    | point l => simp only [hg] at h; rw [h]
-    | path r => simp [hg] at h
-    | area r => simp [hg] at h
-    | other r => simp [hg] at h
+  by_cases hi : t.1 = 9
+  · exact Or.inl hi
+  · refine Or.inr ?_
+    simp only [hi, ↓reduceIte] at h
+    cases hf : find w t with
+    | none => simp [hf] at h
+    | some g =>
+      simp only [hf, Option.bind_some, pointLoc] at h
+      refine ⟨g, rfl, ?_⟩
+      cases hg : g.geo with
+      | point l => simp only [hg] at h; rw [h]
+      | path r => simp [hg] at h
+      | area r => simp [hg] at h
+      | other r => simp [hg] at h
+
+/-- an element read by a validation exists: it is an inline point or a feature of the world -/
+def Ex (w : World) (t : Id) : Prop := t.1 = 9 ∨ (find w t).isSome = true
 
 theorem areaPathOk_put {w : World} {f : Feat} {pid : Id} (hpid : pid ≠ f.id)
     (hends : ∀ i refs, find w pid = some ⟨i, .path refs⟩ →
@@ -286,10 +293,10 @@ theorem last_mem {refs : List Id} {b : Id} (h : refs.getLast? = some b) : b ∈ 
 
 /-- what a feature that is valid in `w` reads exists in `w` -/
 theorem valid_reads_exist {O : Oracle} {w : World} {g : Feat} (h : valid O w g = true) :
-    (∀ refs, g.geo = .path refs → ∀ t ∈ refs, (find w t).isSome = true) ∧
+    (∀ refs, g.geo = .path refs → ∀ t ∈ refs, Ex w t) ∧
     (∀ polys, g.geo = .area polys → ∀ pid ∈ polys.flatten, (find w pid).isSome = true ∧
       ∀ i refs, find w pid = some ⟨i, .path refs⟩ →
-        (∀ a, refs.head? = some a → (find w a).isSome = true) ∧ (∀ b, refs.getLast? = some b → (find w b).isSome = true)) := by
+        (∀ a, refs.head? = some a → Ex w a) ∧ (∀ b, refs.getLast? = some b → Ex w b)) := by
   unfold valid at h
   constructor
   · intro refs hg t ht
@@ -298,8 +305,9 @@ theorem valid_reads_exist {O : Oracle} {w : World} {g : Feat} (h : valid O w g =
     | none => simp [hs] at h
     | some slots =>
       obtain ⟨k, hk⟩ := pathSlots_some hs t ht
-      obtain ⟨g', hg', _⟩ := locOf_some hk
-      simp [hg']
+      rcases locOf_some hk with hinl | ⟨g', hg', _⟩
+      · exact Or.inl hinl
+      · exact Or.inr (by simp [hg'])
   · intro polys hg pid hpid
     simp only [hg, List.all_eq_true] at h
     have hp := h pid hpid
@@ -319,7 +327,10 @@ theorem valid_reads_exist {O : Oracle} {w : World} {g : Feat} (h : valid O w g =
           simp only [hh, hl, Bool.and_eq_true] at hp
           cases hla : locOf w a with
           | none => simp [hla] at hp
-          | some x => obtain ⟨g', hg', _⟩ := locOf_some hla; simp [hg']
+          | some x =>
+            rcases locOf_some hla with hinl | ⟨g', hg', _⟩
+            · exact Or.inl hinl
+            · exact Or.inr (by simp [hg'])
       · intro b hl
         cases hh : refs.head? with
         | none => simp [hh] at hp
@@ -330,7 +341,10 @@ theorem valid_reads_exist {O : Oracle} {w : World} {g : Feat} (h : valid O w g =
           | some x =>
             cases hlb : locOf w b with
             | none => simp [hla, hlb] at hp
-            | some y => obtain ⟨g', hg', _⟩ := locOf_some hlb; simp [hg']
+            | some y =>
+              rcases locOf_some hlb with hinl | ⟨g', hg', _⟩
+              · exact Or.inl hinl
+              · exact Or.inr (by simp [hg'])
 
 theorem closure_closed (w : World) (id : Id) : ∀ (k : Nat) (S R : List Id),
     closure w id k S = some R → closedSet w id R = true := by
@@ -352,7 +366,7 @@ theorem closure_closed (w : World) (id : Id) : ∀ (k : Nat) (S R : List Id),
 
 theorem edits_valid (O : Oracle) (w w' : World) (f : Feat) (hu : Uniq w)
     (hv : ∀ g ∈ w, valid O w g = true)
-    (hk : ∀ g ∈ w, g.id = f.id → sameCtor g f = true)
+    (hk : ∀ g ∈ w, g.id = f.id → sameCtor g f = true) (hfid : f.id.1 ≠ 9)
     (h : addFeature O w f = .ok w') : ∀ g ∈ w', valid O w' g = true := by
   unfold addFeature at h
   cases hvf : validateFeature O false w f with
@@ -377,9 +391,10 @@ theorem edits_valid (O : Oracle) (w w' : World) (f : Feat) (hu : Uniq w)
           | none => simp [hs] at hfw
           | some slots =>
             obtain ⟨k, hk'⟩ := pathSlots_some hs f.id hin
-            obtain ⟨g', hg', hgeo'⟩ := locOf_some hk'
-            have := hctor_of_find g' hg'
-            simp [sameCtor, hgeo', hg] at this
+            rcases locOf_some hk' with hinl | ⟨g', hg', hgeo'⟩
+            · exact absurd hinl hfid
+            · have := hctor_of_find g' hg'
+              simp [sameCtor, hgeo', hg] at this
         · intro polys hg pid hpid
           have hr := (valid_reads_exist hfw).2 polys hg pid hpid
           unfold valid at hfw
@@ -410,9 +425,10 @@ theorem edits_valid (O : Oracle) (w w' : World) (f : Feat) (hu : Uniq w)
                 cases hla : locOf w f.id with
                 | none => simp [hla] at hp
                 | some x =>
-                  obtain ⟨g', hg', hgeo'⟩ := locOf_some hla
-                  have := hctor_of_find g' hg'
-                  simp [sameCtor, hgeo', hg] at this
+                  rcases locOf_some hla with hinl | ⟨g', hg', hgeo'⟩
+                  · exact absurd hinl hfid
+                  · have := hctor_of_find g' hg'
+                    simp [sameCtor, hgeo', hg] at this
             · intro b hl e
               subst e
               cases hh : refs.head? with
@@ -425,9 +441,10 @@ theorem edits_valid (O : Oracle) (w w' : World) (f : Feat) (hu : Uniq w)
                   cases hlb : locOf w f.id with
                   | none => simp [hla, hlb] at hp
                   | some y =>
-                    obtain ⟨g', hg', hgeo'⟩ := locOf_some hlb
-                    have := hctor_of_find g' hg'
-                    simp [sameCtor, hgeo', hg] at this
+                    rcases locOf_some hlb with hinl | ⟨g', hg', hgeo'⟩
+                    · exact absurd hinl hfid
+                    · have := hctor_of_find g' hg'
+                      simp [sameCtor, hgeo', hg] at this
       by_cases hex : (find w f.id).isSome = true
       · simp only [hex, ↓reduceIte] at h
         cases hr : referrers w f.id with
@@ -460,7 +477,7 @@ theorem edits_valid (O : Oracle) (w w' : World) (f : Feat) (hu : Uniq w)
             · have hreads := not_in_closed hcl hgw hin
               apply valid_put _ _ (hv g hgw)
               · intro refs hgeo hmem
-                exact (hreads f.id (by simp [refsOf, hgeo, hmem])).1 rfl
+                exact (hreads f.id (by simp [refsOf, hgeo, hmem, isInline, hfid])).1 rfl
               · intro polys hgeo pid hpid
                 have hr := hreads pid (by simp only [refsOf, hgeo]; exact hpid)
                 refine ⟨hr.1, ?_⟩
@@ -470,9 +487,13 @@ theorem edits_valid (O : Oracle) (w w' : World) (f : Feat) (hu : Uniq w)
                 have hreads2 := not_in_closed hcl hpm (by simp only; rw [hpi]; exact hr.2)
                 constructor
                 · intro a hh
-                  exact (hreads2 a (by simp only [refsOf]; exact head_mem hh)).1
+                  by_cases hai : a.1 = 9
+                  · intro e; exact hfid (by rw [← e]; exact hai)
+                  · exact (hreads2 a (by simp only [refsOf]; exact List.mem_filter.mpr ⟨head_mem hh, by simp [isInline, hai]⟩)).1
                 · intro b hl
-                  exact (hreads2 b (by simp only [refsOf]; exact last_mem hl)).1
+                  by_cases hai : b.1 = 9
+                  · intro e; exact hfid (by rw [← e]; exact hai)
+                  · exact (hreads2 b (by simp only [refsOf]; exact List.mem_filter.mpr ⟨last_mem hl, by simp [isInline, hai]⟩)).1
       · simp only [hex, Bool.false_eq_true, ↓reduceIte] at h
         injection h with h; subst h
         have hnone : find w f.id = none := by
@@ -481,25 +502,30 @@ theorem edits_valid (O : Oracle) (w w' : World) (f : Feat) (hu : Uniq w)
           | some g => simp [hf] at hex
         have hne : ∀ t, (find w t).isSome = true → t ≠ f.id := by
           intro t ht e; subst e; rw [hnone] at ht; cases ht
+        have hne' : ∀ t, Ex w t → t ≠ f.id := by
+          intro t ht
+          rcases ht with ht | ht
+          · intro e; exact hfid (by rw [← e]; exact ht)
+          · exact hne t ht
         intro g hg
         rcases mem_put hu hg with rfl | ⟨hgw, hgid⟩
         · exact hfnew
         · have hr := valid_reads_exist (hv g hgw)
           apply valid_put _ _ (hv g hgw)
           · intro refs hgeo hmem
-            exact hne f.id (hr.1 refs hgeo f.id hmem) rfl
+            exact hne' f.id (hr.1 refs hgeo f.id hmem) rfl
           · intro polys hgeo pid hpid
             obtain ⟨h1, h2⟩ := hr.2 polys hgeo pid hpid
             refine ⟨hne pid h1, ?_⟩
             intro i refs hfind
             obtain ⟨h3, h4⟩ := h2 i refs hfind
-            exact ⟨fun a hh => hne a (h3 a hh), fun b hl => hne b (h4 b hl)⟩
+            exact ⟨fun a hh => hne' a (h3 a hh), fun b hl => hne' b (h4 b hl)⟩
 
 /-- the same for any re-validated referrer set that is closed under "references a member" — the
 shape of `MutableOverlayWorld.AddFeature`, whose referrers come from the world's own `FindReferences` -/
 theorem edits_valid_with (O : Oracle) (w w' : World) (f : Feat) (R : List Id) (hu : Uniq w)
     (hv : ∀ g ∈ w, valid O w g = true)
-    (hk : ∀ g ∈ w, g.id = f.id → sameCtor g f = true)
+    (hk : ∀ g ∈ w, g.id = f.id → sameCtor g f = true) (hfid : f.id.1 ≠ 9)
     (hcl : closedSet w f.id R = true)
     (h : addFeatureWith O w f R = .ok w') : ∀ g ∈ w', valid O w' g = true := by
   unfold addFeatureWith at h
@@ -525,9 +551,10 @@ theorem edits_valid_with (O : Oracle) (w w' : World) (f : Feat) (R : List Id) (h
           | none => simp [hs] at hfw
           | some slots =>
             obtain ⟨k, hk'⟩ := pathSlots_some hs f.id hin
-            obtain ⟨g', hg', hgeo'⟩ := locOf_some hk'
-            have := hctor_of_find g' hg'
-            simp [sameCtor, hgeo', hg] at this
+            rcases locOf_some hk' with hinl | ⟨g', hg', hgeo'⟩
+            · exact absurd hinl hfid
+            · have := hctor_of_find g' hg'
+              simp [sameCtor, hgeo', hg] at this
         · intro polys hg pid hpid
           have hr := (valid_reads_exist hfw).2 polys hg pid hpid
           unfold valid at hfw
@@ -558,9 +585,10 @@ theorem edits_valid_with (O : Oracle) (w w' : World) (f : Feat) (R : List Id) (h
                 cases hla : locOf w f.id with
                 | none => simp [hla] at hp
                 | some x =>
-                  obtain ⟨g', hg', hgeo'⟩ := locOf_some hla
-                  have := hctor_of_find g' hg'
-                  simp [sameCtor, hgeo', hg] at this
+                  rcases locOf_some hla with hinl | ⟨g', hg', hgeo'⟩
+                  · exact absurd hinl hfid
+                  · have := hctor_of_find g' hg'
+                    simp [sameCtor, hgeo', hg] at this
             · intro b hl e
               subst e
               cases hh : refs.head? with
@@ -573,9 +601,10 @@ theorem edits_valid_with (O : Oracle) (w w' : World) (f : Feat) (R : List Id) (h
                   cases hlb : locOf w f.id with
                   | none => simp [hla, hlb] at hp
                   | some y =>
-                    obtain ⟨g', hg', hgeo'⟩ := locOf_some hlb
-                    have := hctor_of_find g' hg'
-                    simp [sameCtor, hgeo', hg] at this
+                    rcases locOf_some hlb with hinl | ⟨g', hg', hgeo'⟩
+                    · exact absurd hinl hfid
+                    · have := hctor_of_find g' hg'
+                      simp [sameCtor, hgeo', hg] at this
       split at h
       · cases h
       · cases h
@@ -601,7 +630,7 @@ theorem edits_valid_with (O : Oracle) (w w' : World) (f : Feat) (R : List Id) (h
           · have hreads := not_in_closed hcl hgw hin
             apply valid_put _ _ (hv g hgw)
             · intro refs hgeo hmem
-              exact (hreads f.id (by simp [refsOf, hgeo, hmem])).1 rfl
+              exact (hreads f.id (by simp [refsOf, hgeo, hmem, isInline, hfid])).1 rfl
             · intro polys hgeo pid hpid
               have hr := hreads pid (by simp only [refsOf, hgeo]; exact hpid)
               refine ⟨hr.1, ?_⟩
@@ -611,8 +640,12 @@ theorem edits_valid_with (O : Oracle) (w w' : World) (f : Feat) (R : List Id) (h
               have hreads2 := not_in_closed hcl hpm (by simp only; rw [hpi]; exact hr.2)
               constructor
               · intro a hh
-                exact (hreads2 a (by simp only [refsOf]; exact head_mem hh)).1
+                by_cases hai : a.1 = 9
+                · intro e; exact hfid (by rw [← e]; exact hai)
+                · exact (hreads2 a (by simp only [refsOf]; exact List.mem_filter.mpr ⟨head_mem hh, by simp [isInline, hai]⟩)).1
               · intro b hl
-                exact (hreads2 b (by simp only [refsOf]; exact last_mem hl)).1
+                by_cases hai : b.1 = 9
+                · intro e; exact hfid (by rw [← e]; exact hai)
+                · exact (hreads2 b (by simp only [refsOf]; exact List.mem_filter.mpr ⟨last_mem hl, by simp [isInline, hai]⟩)).1
 
 end B6.Lemmas.ValidateEdits
